@@ -75,7 +75,7 @@ int __wrap_epoll_pwait(int epfd, struct epoll_event* ev, int max, int timeout, c
 
 struct hnd {
   union { uv_handle_t h; uv_timer_t t; uv_idle_t i; uv_prepare_t p; uv_check_t c; uv_async_t a; } u;
-  char kind; int closed; int closing;
+  char kind; int closed; int closing; int nullcb;
 };
 static struct hnd* H[MAXH];
 static int nh;
@@ -87,7 +87,11 @@ static int nbeh, cbcount;
 static uv_loop_t loop;
 
 static void do_ops(char* ops, int in_cb);
-static int usable(int i) { return i >= 0 && i < nh && !H[i]->closed; }
+/* a handle closed with a NULL callback (op K) has no close_cb to tell us: libuv's CLOSED flag says when it is done */
+static int is_closed(int j) {
+  return H[j]->closed || (H[j]->nullcb && (H[j]->u.h.flags & UV_HANDLE_CLOSED) != 0);
+}
+static int usable(int i) { return i >= 0 && i < nh && !is_closed(i); }
 
 /* what the blocking rules of the property depend on, from API-level observations */
 int poll_flags(void) {
@@ -95,7 +99,7 @@ int poll_flags(void) {
   for (j = 0; j < nh; j++) {
     uv_handle_t* h = &H[j]->u.h;
     if (H[j]->kind == 'i' && uv_is_active(h)) idle = 1;
-    if (H[j]->closing && !H[j]->closed) closing = 1;
+    if (H[j]->closing && !is_closed(j)) closing = 1;
     if (uv_is_active(h) && uv_has_ref(h) && !uv_is_closing(h)) work = 1;
   }
   return (idle << 3) | (closing << 2) | ((loop.stop_flag ? 1 : 0) << 1) | work;
@@ -273,6 +277,12 @@ static void do_ops(char* ops, int in_cb) {
         H[i]->closing = 1; uv_close(&H[i]->u.h, close_cb);
       }
       break;
+    case 'K':   /* uv_close with a NULL callback (monitor-only cases: the model always has a close callback) */
+      if (sscanf(tok + 1, "%d", &i) == 1 && usable(i) && !H[i]->closing) {
+        touch(i);
+        H[i]->closing = 1; H[i]->nullcb = 1; uv_close(&H[i]->u.h, NULL);
+      }
+      break;
     case 'E':
       if (sscanf(tok + 1, "%d", &i) == 1 && usable(i) && H[i]->kind == 'a')
         printf("r%d ", uv_async_send(&H[i]->u.a));
@@ -303,7 +313,7 @@ static void do_ops(char* ops, int in_cb) {
       printf("o%u,%u,", loop.active_handles, loop.active_reqs.count);
       for (j = 0; j < nh; j++)
         printf("%d%d%d%d,", uv_is_active(&H[j]->u.h) ? 1 : 0, uv_has_ref(&H[j]->u.h) ? 1 : 0,
-               uv_is_closing(&H[j]->u.h) ? 1 : 0, H[j]->closed);
+               uv_is_closing(&H[j]->u.h) ? 1 : 0, is_closed(j));
       printf(" ");
       if ((int) loop.active_reqs.count < cbw_out || (int) loop.active_reqs.count > cbw_out + (qn_null - settled_null))
         printf("!reqs%u,%d,%d ", loop.active_reqs.count, cbw_out, cbw_out + (qn_null - settled_null));
@@ -360,7 +370,7 @@ int main(void) {
     if (g_loop != NULL) {
       quiet = 1; npolls = 0; drain_hang = 0;
       for (k = 0; k < nh; k++)
-        if (!H[k]->closed && !H[k]->closing) { H[k]->closing = 1; uv_close(&H[k]->u.h, close_cb); }
+        if (!is_closed(k) && !H[k]->closing) { H[k]->closing = 1; uv_close(&H[k]->u.h, close_cb); }
       uv_run(&loop, UV_RUN_DEFAULT);
       if (drain_hang) printf("!drainhang ");
       uv_loop_close(&loop);
